@@ -75,14 +75,16 @@ def check_minmax(ctx, db):
         fns += db.fn(qn, all=True)
     fns.append(db.fn('gdstk::convex_hull'))
     fns += db.fn('gdstk::bounding_box', required=False, all=True)
-    for f in fns:
+    # file-local helpers called from these functions are part of them (an update moved into `expand_box(min, max, ...)`
+    # is still an update of the caller's accumulators); counts are weighted by the number of call sites
+    for f, weight in db.with_helpers(fns):
         ups = minmax.find_updates(f)
         if not ups:
             continue
         ctx.touch(f)
         label = f.qn.replace('gdstk::', '') + ('#%d' % len(f.params))
         n, roles = minmax.check_minmax(ctx, f, label=label)
-        total += n
+        total += n * weight
         # group by enclosing loop: all four accumulators present with the right roles
         groups = {}
         for u in ups:
@@ -295,52 +297,64 @@ def check_hull_corners(ctx, db):
     f = db.fn('gdstk::convex_hull')
     ctx.touch(f)
     src = f.params[0]['n']
+    from .. import deps
+    D = deps.Deps(f)
     n = 0
     for c in f.walk():
         if c.k != 'CXXMemberCallExpr' or (c.callee or '').split('::')[-1] not in ('append', 'extend', 'append_unsafe') or norm(c.child('obj').text()) != f.params[1]['n']:
             continue
         n += 1
         a = _strip_casts(c.args[0])
-        while a is not None and a.k in ('CXXConstructExpr', 'MaterializeTemporaryExpr', 'CXXBindTemporaryExpr') and len([x for x in a.c if x is not None]) == 1:
+        while a is not None and a.k in ('CXXConstructExpr', 'MaterializeTemporaryExpr', 'CXXBindTemporaryExpr', 'CXXFunctionalCastExpr', 'InitListExpr') and len([x for x in a.c if x is not None]) == 1:
             a = _strip_casts([x for x in a.c if x is not None][0])
-        ok = False
         why = norm(c.args[0].text())
+        # the reported value must be ONE element of the input array, however it is addressed: `*p` / `p[i]` with p a pointer
+        # into the input, `points[i]`, `points.items[i]`, or the whole array (extend)
+        src_key = next(('v%d:%s' % (q.d, q.n) for q in f.walk() if q.k == 'DeclRefExpr' and q.dk == 'param' and q.n == src), None)
+        ok = False
         if a.k == 'DeclRefExpr' and a.n == src:
             ok = True
-        elif a.k == 'UnaryOperator' and a.op == '*' and _strip_casts(a.child('sub')).k == 'DeclRefExpr':
-            pv = _strip_casts(a.child('sub'))
-            key = lvalue_key(pv)
-            defs = [v.child('init') for v in f.walk() if v.k == 'VarDecl' and 'v%d:%s' % (v.d, v.n) == key and v.child('init') is not None]
-            defs += [x.child('rhs') for x in f.walk() if is_assign(x) and x.op == '=' and lvalue_key(x.child('lhs')) == key]
-            into = set()
-            for d in defs:
-                t = norm(d.text())
-                into.add(t)
-            # every definition is a pointer into the input array: `points.items`, or another pointer that is
-            ptrs = {('%s.items' % src)}
-            changed = True
-            names = {}
-            for v in f.walk():
-                if v.k == 'VarDecl' and '*' in (v.t or '') and v.child('init') is not None:
-                    names.setdefault(v.n, set()).add(norm(v.child('init').text()))
-            for x in f.walk():
-                if is_assign(x) and x.op == '=' and _strip_casts(x.child('lhs')).k == 'DeclRefExpr' and '*' in (_strip_casts(x.child('lhs')).t or ''):
-                    names.setdefault(_strip_casts(x.child('lhs')).n, set()).add(norm(x.child('rhs').text()))
-            good = set()
-            while changed:
-                changed = False
-                for nm, ds in names.items():
-                    if nm not in good and all(d in ptrs or d in good for d in ds):
-                        good.add(nm)
-                        changed = True
-            ok = pv.n in good
+        elif a.k == 'CXXOperatorCallExpr' and a.op == '[]' and lvalue_key(_strip_casts(a.args[0])) == src_key:
+            ok = True
+        else:
+            ptr = a.child('sub') if (a.k == 'UnaryOperator' and a.op == '*') else (a.child('base') or a.c[0]) if a.k == 'ArraySubscriptExpr' else None
+            r = D.root_of_ptr(ptr) if ptr is not None else None
+            ok = r is not None and r[0] == src_key
         ctx.check(ok, 'R-EFFECT', 'convex_hull/corner@%s' % c.loc(), c.loc(), 'the reported corner is an element of the input array',
                   'convex_hull reports `%s`, which is not an element of the input (a point assembled from separate coordinate extrema lies outside the input when the points are on a descending line)' % why)
     ctx.require('R-EFFECT hull corner sources', n, 2)
     # the qhull branch copies both coordinates of ONE vertex
-    st = [x for x in f.walk() if is_assign(x) and 'qh_vertex->point[' in norm(x.child('rhs').text())]
-    ok = len(st) == 2 and sorted(norm(x.child('rhs').text()) for x in st) == ['qh_vertex->point[0]', 'qh_vertex->point[1]'] and st[0].parent is st[1].parent
-    ctx.check(ok, 'R-EFFECT', 'convex_hull/qhull-vertex', f.loc(), 'each reported vertex takes both coordinates from the same qhull vertex (an input point)')
+    reads = []
+    for x in f.walk():
+        if x.k != 'ArraySubscriptExpr':
+            continue
+        b = _strip_casts(x.child('base') or x.c[0])
+        if b is None or b.k != 'MemberExpr' or b.n != 'point' or not b.arrow:
+            continue
+        idx = _strip_casts(x.child('idx') or x.c[1]).cv
+        vk = lvalue_key(_strip_casts(b.child('base')))
+        # where does the value go: `.x = ` / `.y = ` or the first / second slot of a Vec2 initialiser
+        slot = None
+        y, prev = x.parent, x
+        while y is not None and y.k in ('ImplicitCastExpr', 'CStyleCastExpr', 'ParenExpr', 'CXXStaticCastExpr'):
+            prev, y = y, y.parent
+        if y is not None and is_assign(y) and y.child('rhs') is prev and _strip_casts(y.child('lhs')).k == 'MemberExpr':
+            slot = {'x': 'x', 'y': 'y'}.get(_strip_casts(y.child('lhs')).n)
+        elif y is not None and y.k in ('InitListExpr', 'CXXConstructExpr', 'CXXTemporaryObjectExpr') and 'Vec2' in (y.t or ''):
+            cs = [c_ for c_ in y.c if c_ is not None]
+            pos = next((i_ for i_, c_ in enumerate(cs) if c_ is prev), None)
+            slot = {0: 'x', 1: 'y'}.get(pos)
+        reads.append((x, idx, vk, slot))
+    if len(reads) < 2:
+        raise AnalysisBroken('convex_hull: reads of the qhull vertex coordinates not found')
+    ok = sorted((i_, s_) for _, i_, _, s_ in reads) == [(0, 'x'), (1, 'y')] and len({vk for _, _, vk, _ in reads}) == 1
+    if ok:
+        lo, hi = sorted(r[0].id for r in reads)
+        vk = reads[0][2]
+        # the vertex pointer is not advanced between the two reads
+        ok = not any(c.k == 'CallExpr' and lo < c.id < hi and any(_strip_casts(a_).k == 'UnaryOperator' and _strip_casts(a_).op == '&' and lvalue_key(_strip_casts(_strip_casts(a_).child('sub'))) == vk for a_ in c.args) for c in f.walk())
+    ctx.check(ok, 'R-EFFECT', 'convex_hull/qhull-vertex', f.loc(), 'each reported vertex takes x from point[0] and y from point[1] of the same qhull vertex (an input point)',
+              'the qhull branch stores %s' % sorted((i_, s_) for _, i_, _, s_ in reads))
 
 
 def run(ctx):
